@@ -294,7 +294,7 @@ def ev_conversions(case, ctx):
             ctx.violation("sky2pix(%.9f, %.9f) = (%.9f, %.9f), expected %r (%s)" % (rra, rdec, sx_, sy_, pix, tag),
                           "sky2pix|" + sig)
         sizes = SIZES if ctx.tier == "quick" else [1.0, 2.0, 5.0, 10.0, 20.0]
-        ratios = RATIOS if ctx.tier == "quick" else [1.0, 0.8, 0.5, 0.2]
+        ratios = RATIOS if ctx.tier == "quick" else [1.0, 0.997, 0.8, 0.5, 0.2]
         angles = ANGLES if ctx.tier == "quick" else [-180.0 + 15.0 * k for k in range(1, 25)]
         for size, ratio, ang0 in itertools.product(sizes, ratios, angles):
             ang = ang0 + dang
